@@ -15,6 +15,10 @@
 //               TestInstaller into the current registry, as an OrderedTestShell through OrderedTestInstaller (decoded level),
 //               or by addTest + unDoLastAddTest + addTest; setRunTestsInSeperateProcess() is called before the first, between
 //               two, or after the last entry; then up to three of reverseTests / shuffleTests(seed) / unDoLastAddTest + re-add.
+//   0xEB        REAL interruptions of the REAL wait path: 1..4 tests; a "blocking" test's child blocks in pause() (hard cap 30 s)
+//               while the parent runs a 1 ms interval timer whose SIGALRM handler is installed without SA_RESTART, so the
+//               platform's default waitpid really returns EINTR.  Nothing is scripted.  The tick handler counts the delivered
+//               signals and kills the child after 400 of them, so the verdict never depends on elapsed time.
 //   odd         part (b): PlatformSpecificFork / PlatformSpecificWaitPid are stubs replaying a decoded outcome script per
 //               test: fork error, or segments "EINTR x L (0..40 or endless), then one of exited k / signalled s /
 //               stopped s / continued / error(errno)".  No process is created; the stub returns the harness's own pid.
@@ -35,6 +39,7 @@
 #include <sys/mman.h>
 #include <sys/prctl.h>
 #include <sys/resource.h>
+#include <sys/time.h>
 #include <sys/wait.h>
 
 using verif::Reader;
@@ -44,7 +49,7 @@ namespace {
 
 enum { PRE = 0, SETUP, BODY, TEARDOWN, POST, NPHASE };
 const char* const PH[NPHASE] = {"pre", "setup", "body", "teardown", "post"};
-enum { K_NOTHING = 0, K_FAIL, K_EXIT, K_SIGNAL, K_ABORT, K_PRINT };
+enum { K_NOTHING = 0, K_FAIL, K_EXIT, K_SIGNAL, K_ABORT, K_PRINT, K_BLOCK };
 enum { F_THROW = 0, F_LONGJMP, F_UNEXPECTED, F_ADDONLY };
 const char* const FV[4] = {"throw", "longjmp", "unexpected-exception", "recorded-only"};
 const int FAIL_SEL[8] = {F_THROW, F_LONGJMP, F_UNEXPECTED, F_ADDONLY, F_UNEXPECTED, F_THROW, F_LONGJMP, F_UNEXPECTED};   // 4 and 7: the exception is a std::exception (arg = 1)
@@ -56,6 +61,7 @@ const int GUARD_SIGRET = 204;   // raise() of a terminating signal returned
 const int GUARD_ORPHAN = 205;   // the parent was gone before the child started
 const int MAXT = 8, MAXA = 2, MAXREP = 3, MAXF = MAXT * MAXREP;   // MAXF: children of one program (tests x repetitions)
 const int EINTR_TOLERATED = 30; // "Tried 30 times": runs up to this length must be absorbed
+const int TICK_KILL = 400;       // real-interruption mode: the harness kills the blocking child after this many delivered timer signals
 const int STUB_CALL_CAP = 1000; // harness cap on waitpid calls for one test
 
 enum SigClass { S_TERM, S_IGN, S_STOP, S_MAYSTOP };
@@ -117,6 +123,37 @@ int g_sigcont_at_start[MAXT + 1];
 
 void flag(const char* sig, const std::string& msg) { if (g_flag_sig.empty()) { g_flag_sig = sig; g_flag_msg = msg; } }
 
+// ---- real interruptions: interval timer in the parent for the duration of one test ------------------------------------
+volatile sig_atomic_t g_ticks, g_tick_killed;
+volatile pid_t g_tick_pid;
+bool g_ticking = false, g_tick_child_reaped = false;   // reaped: the code under test has already collected the child (never signal a pid twice)
+int g_tick_fork = -1;                 // ordinal of the child the timer runs for
+int g_ticks_of[MAXF]; bool g_killed_by_ticks[MAXF];
+struct sigaction g_tick_old_sa; struct itimerval g_tick_old_timer;
+void on_tick(int) {
+    g_ticks++;
+    if (g_ticks >= TICK_KILL && !g_tick_killed && g_tick_pid > 0) { kill(g_tick_pid, SIGKILL); g_tick_killed = 1; }
+}
+void start_ticks(pid_t pid, int fork_ordinal) {
+    g_ticks = 0; g_tick_killed = 0; g_tick_pid = pid; g_tick_fork = fork_ordinal; g_ticking = true; g_tick_child_reaped = false;
+    struct sigaction sa; memset(&sa, 0, sizeof sa); sa.sa_handler = on_tick; sigemptyset(&sa.sa_mask); sa.sa_flags = 0;   // no SA_RESTART
+    sigaction(SIGALRM, &sa, &g_tick_old_sa);
+    struct itimerval it; it.it_interval.tv_sec = 0; it.it_interval.tv_usec = 1000; it.it_value = it.it_interval;
+    setitimer(ITIMER_REAL, &it, &g_tick_old_timer);      // shares the timer with the wrapper's alarm(): saved and put back
+}
+// end of the test the timer ran for: timer and handler back, the child (left behind by a parent that gave up) killed and reaped
+void stop_ticks() {
+    if (!g_ticking) return;
+    struct itimerval off; memset(&off, 0, sizeof off);
+    setitimer(ITIMER_REAL, &off, NULL);
+    sigaction(SIGALRM, &g_tick_old_sa, NULL);
+    setitimer(ITIMER_REAL, &g_tick_old_timer, NULL);
+    g_ticking = false;
+    if (g_tick_fork >= 0 && g_tick_fork < MAXF) { g_ticks_of[g_tick_fork] = (int)g_ticks; g_killed_by_ticks[g_tick_fork] = g_tick_killed != 0; }
+    if (g_tick_pid > 0 && !g_tick_child_reaped) { int st; kill(g_tick_pid, SIGKILL); while (waitpid(g_tick_pid, &st, 0) < 0 && errno == EINTR) {} }
+    g_tick_pid = 0;
+}
+
 // ---- recording: everything the parent's TestResult reports goes through its TestOutput -------------------------------
 struct Rec { std::string test, msg; };
 struct Run {            // one TestRegistry::runAllTests
@@ -132,7 +169,11 @@ public:
         if (!g_in_child && !g_runs.empty()) g_runs.back().started.push_back(t.getName().asCharString());
         StringBufferTestOutput::printCurrentTestStarted(t);
     }
-    void printCurrentTestEnded(const TestResult& r) CPPUTEST_OVERRIDE { if (!g_in_child && !g_runs.empty()) g_runs.back().ended++; StringBufferTestOutput::printCurrentTestEnded(r); }
+    void printCurrentTestEnded(const TestResult& r) CPPUTEST_OVERRIDE {
+        if (!g_in_child) stop_ticks();
+        if (!g_in_child && !g_runs.empty()) g_runs.back().ended++;
+        StringBufferTestOutput::printCurrentTestEnded(r);
+    }
     void printFailure(const TestFailure& f) CPPUTEST_OVERRIDE {
         if (!g_in_child && !g_runs.empty()) { Rec r; r.test = f.getTestNameOnly().asCharString(); r.msg = f.getMessage().asCharString(); g_runs.back().recs.push_back(r); }
         StringBufferTestOutput::printFailure(f);
@@ -170,6 +211,10 @@ void do_action(int t, int ai, UtestShell* shell, TestResult* result) {
         if (a.phase == PRE || a.phase == POST) result->print("c11 plugin prints\n");
         else UtestShell::getCurrent()->print("c11 test prints", __FILE__, __LINE__);
         return;
+    case K_BLOCK:
+        if (!g_in_child) return;
+        signal(SIGALRM, SIG_DFL); alarm(30);          // hard cap on the life of a child nobody kills
+        for (;;) pause();
     case K_EXIT: if (!g_in_child) return; _exit(a.arg);
     case K_SIGNAL: {
         if (!g_in_child) return;
@@ -254,7 +299,11 @@ int real_fork_seam(void) {
         if (getppid() != g_parent) _exit(GUARD_ORPHAN);
         return 0;
     }
-    if (p > 0) { g_pids.push_back(p); g_last_pid = p; }
+    if (p > 0) {
+        g_pids.push_back(p); g_last_pid = p;
+        const RealTest& rt = g_real[g_plan[t]];
+        for (int ai = 0; ai < rt.nact; ai++) if (rt.acts[ai].kind == K_BLOCK) { start_ticks(p, t); break; }
+    }
     else { int e = errno; g_env_fork_failed[t] = true; g_last_pid = -1; errno = e; }
     return p;
 }
@@ -303,7 +352,11 @@ int real_waitpid_seam(int pid, int* status, int options) {
     int w = g_orig_waitpid(pid, status, options);     // the platform's default implementation
     int err = errno;
     WaitEntry e = {t, w, w < 0 ? err : 0, (w > 0 && status) ? *status : 0, false}; g_waitlog.push_back(e);
-    if (w > 0) { g_stage[t]++; if (status && WIFSTOPPED(*status)) g_last_was_stop[t] = true; }
+    if (w > 0) {
+        g_stage[t]++;
+        if (status && WIFSTOPPED(*status)) g_last_was_stop[t] = true;
+        if (status && (WIFEXITED(*status) || WIFSIGNALED(*status)) && g_ticking && t == g_tick_fork) { g_tick_child_reaped = true; g_tick_pid = 0; }
+    }
     errno = err;
     return w;
 }
@@ -403,7 +456,7 @@ bool same(const std::vector<Tok>& a, const std::vector<Tok>& b) {
 
 // ---- model of one child (POSIX default actions + the framework's documented phase rules) ----------------------------
 struct Expect { int stops, maybe; bool final_signal; int final_arg; uint8_t reach[NPHASE]; uint8_t acted[MAXA]; bool dies_outside_body; bool guard_ret, guard_throw;
-                bool status_by_code; int child_failures; bool crash_abort; };   // status_by_code: the child ran to its end, the exit status is computed by the code under test
+                bool status_by_code; int child_failures; bool crash_abort; bool blocks; };   // status_by_code: the child ran to its end, the exit status is computed by the code under test
 // inproc: the test runs in the parent process (nothing can die; every failure is recorded directly)
 Expect model_child(const RealTest& rt, bool inproc, bool crash_on_fail) {
     Expect e; memset(&e, 0, sizeof e);
@@ -419,6 +472,7 @@ Expect model_child(const RealTest& rt, bool inproc, bool crash_on_fail) {
             bool leave_phase = false;
             switch (a.kind) {
             case K_NOTHING: case K_PRINT: break;
+            case K_BLOCK: if (inproc) break; e.blocks = true; done = true; break;       // the child never ends by itself
             case K_FAIL:
                 child_failures++;
                 if (crash && (a.var == F_THROW || a.var == F_LONGJMP)) {
@@ -464,6 +518,7 @@ std::string act_str(const Act& a) {
     case K_SIGNAL: return sfmt("%s:raise(%d)", PH[a.phase], a.arg);
     case K_ABORT: return sfmt("%s:abort", PH[a.phase]);
     case K_PRINT: return sfmt("%s:print", PH[a.phase]);
+    case K_BLOCK: return sfmt("%s:block-in-pause (parent interrupted every 1 ms)", PH[a.phase]);
     default: return sfmt("%s:nothing", PH[a.phase]);
     }
 }
@@ -513,6 +568,7 @@ void reset_program_state() {
     memset(g_seg_idx, 0, sizeof g_seg_idx); memset(g_terminal_delivered, 0, sizeof g_terminal_delivered);
     memset(g_stub_calls, 0, sizeof g_stub_calls); memset(g_sigcont_at_start, 0, sizeof g_sigcont_at_start);
     memset((void*)g_sh, 0, sizeof *g_sh);
+    memset(g_ticks_of, 0, sizeof g_ticks_of); memset(g_killed_by_ticks, 0, sizeof g_killed_by_ticks);
     g_parent = getpid();
     verif::fake_millis_value = 0;
 }
@@ -612,6 +668,7 @@ struct Program {
         }
         catch (...) { if (g_in_child) _exit(GUARD_THROW); parent_exception = true; }
         if (g_in_child) _exit(GUARD_LATE);     // last line of defence: a child never returns into the engine
+        stop_ticks();
         UtestShell::restoreDefaultTestTerminator();    // -f and the rethrow switch are process-wide statics
         UtestShell::setRethrowExceptions(false);
     }
@@ -755,6 +812,22 @@ int run_real_program(int ntests, bool& nontrivial) {
                     if (w.ret < 0) { if (w.err == EINTR) eintr_seen++; continue; }
                     if (WIFSTOPPED(w.status)) stops_seen++;
                     else if (WIFEXITED(w.status) || WIFSIGNALED(w.status)) { finals_seen++; final_status = w.status; }
+                }
+                if (e.blocks) {
+                    // (how far the child got when the parent gave up depends on scheduling and is not judged)
+                    // the child lives until somebody kills it and the parent's waitpid is really interrupted every millisecond:
+                    // "interrupted waits are retried a bounded number of times instead of hanging" (A.4: exactly one record)
+                    nontrivial = true;
+                    V_CHECK(!g_killed_by_ticks[fo], "C11:interrupted-wait-retried-without-bound",
+                            "%s: the parent was still waiting after %d real interruptions of waitpid (the seam saw %d EINTR returns); the harness had to kill the child; parent recorded %s",
+                            ctx.c_str(), g_ticks_of[fo], eintr_seen, toks_str(got).c_str());
+                    std::vector<Tok> want; Tok gu = {R_GIVEUP, 0}; want.push_back(gu);
+                    V_CHECK(same(got, want), "C11:records-for-interrupted-wait", "%s: %d real EINTR returns, %d timer signals; parent recorded %s, expected %s", ctx.c_str(),
+                            eintr_seen, g_ticks_of[fo], toks_str(got).c_str(), toks_str(want).c_str());
+                    V_CHECK(eintr_seen > EINTR_TOLERATED, "C11:interrupted-wait-given-up-early", "%s: gave up after only %d real EINTR results (at least %d must be absorbed)",
+                            ctx.c_str(), eintr_seen, EINTR_TOLERATED);
+                    V_CHECK(finals_seen == 0, "C11:harness-child-status", "%s: a blocking child was reported as terminated (status 0x%x)", ctx.c_str(), final_status);
+                    continue;
                 }
                 if (e.crash_abort && finals_seen == 1 && !(WIFSIGNALED(final_status) && WTERMSIG(final_status) == SIGABRT)) {
                     // -f is there to make a failed check abort the child; whether it does is not C11's matter.  When the child did
@@ -986,7 +1059,7 @@ void classes_real(int ntests) {
         const RealTest& rt = g_real[t];
         for (int ai = 0; ai < rt.nact; ai++) {
             const Act& a = rt.acts[ai];
-            static const char* const KN[6] = {"nothing", "fail", "exit", "signal", "abort", "print"};
+            static const char* const KN[7] = {"nothing", "fail", "exit", "signal", "abort", "print", "block-under-real-interruptions"};
             verif::cls(sfmt("a:%s@%s", KN[a.kind], PH[a.phase]).c_str());
             if (a.kind == K_SIGNAL) verif::cls(sfmt("a:signal-%02d", a.arg).c_str());
             if (a.kind == K_EXIT) verif::cls(a.arg == 0 ? "a:exit-0" : a.arg == 1 ? "a:exit-1" : a.arg < 128 ? "a:exit-2..127" : a.arg < 255 ? "a:exit-128..254" : "a:exit-255");
@@ -1041,6 +1114,22 @@ void decode_stub(Reader& r, int ntests, std::string& desc) {
     }
 }
 
+// real interruptions of the real wait path: 1..4 tests, byte 0 = a test whose child blocks
+void decode_interrupt_program(Reader& r, int ntests, std::string& desc) {
+    default_opts();
+    for (int t = 0; t < ntests; t++) {
+        RealTest& rt = g_real[t]; memset(&rt, 0, sizeof rt);
+        rt.nact = 1; Act& a = rt.acts[0]; a.phase = BODY;
+        switch (r.below(4)) {
+        default: a.kind = K_BLOCK; a.phase = PHASE_SEL[r.below(NPHASE)]; break;
+        case 1: a.kind = K_NOTHING; break;
+        case 2: a.kind = K_EXIT; a.arg = r.pick(EXIT_LATTICE); break;
+        case 3: a.kind = K_SIGNAL; a.arg = 1 + (int)r.below(31); break;
+        }
+        desc += sfmt(" t%d%s", t, real_str(rt).c_str());
+    }
+}
+
 // one completely enumerated sub-space, in programs of 8 tests
 int run_enum_block(int block, bool& nontrivial, std::string& desc) {
     default_opts();
@@ -1084,6 +1173,14 @@ extern "C" int verif_case(const uint8_t* data, size_t size) {
     if (m == 0xEE && n < 2 * NPHASE) {      // rare in the random search (1 in 6500 cases); the ten blocks are corpus seeds
         rc = run_enum_block((int)n, nontrivial, desc);
         if (verif::g_explain) fprintf(stderr, "%s\n", desc.c_str());
+    } else if (m == 0xEB) {                  // rare (1 case in 256): costs 35-70 ms of real time per blocking test
+        int ntests = 1 + (int)(n % 4);
+        desc = "real interruptions:";
+        decode_interrupt_program(r, ntests, desc);
+        classes_real(ntests);
+        verif::cls("a:programs-under-real-interruptions");
+        if (verif::g_explain) fprintf(stderr, "%s\n", desc.c_str());
+        rc = run_real_program(ntests, nontrivial);
     } else {
         int ntests = 1 + (int)(n % MAXT);
         if ((m & 1) == 0) {
